@@ -29,6 +29,14 @@ CLAIMS = {
              "returns a possibly stale route; insert-then-accept pairing. Not decided: that incremental updates compute the same values as recomputation.",
         note="Assumes CHA resolution of workspace traits, closures may-run at construction site, calls through stored dyn Fn fields not followed.",
         ref="DESIGN.md §5 C05"),
+    "C06": dict(
+        technique="MIR edge-dominance of constraint gates + abort-condition analysis of the exhaustive scan",
+        text="Soundness gate only: a reported success was evaluated by the complete constraint set on exactly that move on activity and route level, the "
+             "multi-job shadow route is refreshed between sub-insertions, and in exhaustive mode the scan over legs/places/time windows is aborted only by "
+             "a `stopped` violation while every leg from the skip index on is folded. Not decided: completeness (fails only if no feasible position exists) "
+             "and agreement with an independent simulation — they rest on each feature's value-level `stopped` flag and O(1) summaries.",
+        note="Shares rules C01-G1/G2/G3 and C05-I1.",
+        ref="DESIGN.md §5 C06"),
     "C07": dict(
         technique="MIR loop-guard must-pass analysis (entry + per-iteration), finite-ordering evaluation of termination predicates, poll inventory",
         text="Static loop-guard analysis: in every EvolutionStrategy::run termination and quota are polled before the search of every generation and a "
@@ -115,6 +123,14 @@ CLAIMS = {
              "reach grow_nodes without new input; population phases only move forward. Not decided: finiteness of weights/errors, capacity, lookup, elite bounds.",
         note="Phase ranks are taken from the enum declaration order (re-confirmed on change).",
         ref="DESIGN.md §5 C19"),
+    "C20": dict(
+        technique="def-use threading analysis of the quoted cost + measure agreement (TransportCost method / slot writer / value closure)",
+        text="Narrow clauses: the quoted cost of a position is goal.estimate(activity move) + the route-level estimate, threaded unchanged to every leg, carried "
+             "into the success and accumulated by addition for multi jobs; Goal::estimate yields one component per layer in order; the distance objective "
+             "estimates with the TransportCost method that also feeds the cached total its fitness reads; single-closure objectives evaluate the same closure "
+             "in estimate and fitness. Not decided: numeric equality, signs, objectives with two independent closures.",
+        note="Parameter positions of the evaluator chain are a confirmed table.",
+        ref="DESIGN.md §5 C20"),
 }
 
 NOT_APPLICABLE = {
